@@ -5,6 +5,7 @@ use crate::ops::hash_chunks;
 use crate::oracle::*;
 use crate::spec::{self, SComp};
 use crate::util::*;
+use std::borrow::Cow;
 use std::collections::{BTreeSet, HashSet};
 use std::ffi::OsStr;
 use std::os::unix::ffi::OsStrExt;
@@ -39,6 +40,34 @@ fn all_masks(steps: usize, cap: usize, rng: &mut Rng) -> Vec<Vec<bool>> {
         }
         v
     }
+}
+
+/// drive a byte-yielding double-ended iterator by a front/back mask against the expected forward list;
+/// after every step the clone's remaining forward sequence must be the untouched middle
+fn drive_bytes<I>(mut it: I, fwd: &[Vec<u8>], m: &[bool]) -> Option<String>
+where
+    I: DoubleEndedIterator<Item = Vec<u8>> + Clone,
+{
+    let (mut lo, mut hi) = (0usize, fwd.len());
+    for (i, bk) in m.iter().enumerate() {
+        let x = if *bk { it.next_back() } else { it.next() };
+        let y = if lo < hi {
+            if *bk {
+                hi -= 1;
+                Some(fwd[hi].clone())
+            } else {
+                lo += 1;
+                Some(fwd[lo - 1].clone())
+            }
+        } else {
+            None
+        };
+        let rem: Vec<Vec<u8>> = it.clone().collect();
+        if x != y || rem != fwd[lo..hi] {
+            return Some(format!("step {} ({}): got {:?} want {:?}; rest {:?} want {:?}", i, if *bk { "back" } else { "front" }, x, y, rem, &fwd[lo..hi]));
+        }
+    }
+    None
 }
 
 fn mask_str(m: &[bool]) -> String {
@@ -324,6 +353,58 @@ pub fn c03(ctx: &mut Ctx, tier: &str, seed: u64) {
             if t_f != as_b || t_b != as_b || ti_f != as_b {
                 ctx.fail("typed-components-match", None, format!("comps {} {}", e, hex(s)), format!("{:?}", t_f));
             }
+            // ... and under interleavings, for every wrapper iterator the crate offers
+            for m in all_masks(as_b.len() + 1, 4, &mut rng) {
+                let v = |x: &[u8]| x.to_vec();
+                let mut bad: Vec<(&str, String)> = Vec::new();
+                macro_rules! chk {
+                    ($name:expr, $it:expr) => {
+                        if let Some(d) = drive_bytes($it, &as_b, &m) {
+                            bad.push(($name, d));
+                        }
+                    };
+                }
+                if win {
+                    let p = WindowsPath::new(s);
+                    chk!("Path::iter", p.iter().map(v));
+                    chk!("Components as_bytes", p.components().map(|c| c.as_bytes().to_vec()));
+                    let pb = p.to_path_buf();
+                    chk!("PathBuf::iter", pb.iter().map(v));
+                } else {
+                    let p = UnixPath::new(s);
+                    chk!("Path::iter", p.iter().map(v));
+                    chk!("Components as_bytes", p.components().map(|c| c.as_bytes().to_vec()));
+                    let pb = p.to_path_buf();
+                    chk!("PathBuf::iter", pb.iter().map(v));
+                }
+                chk!("TypedPath::components", tp.components().map(|c| c.as_bytes().to_vec()));
+                chk!("TypedPath::iter", tp.iter().map(v));
+                let tpb = tp.to_path_buf();
+                chk!("TypedPathBuf::components", tpb.components().map(|c| c.as_bytes().to_vec()));
+                chk!("TypedPathBuf::iter", tpb.iter().map(v));
+                if let Ok(st) = std::str::from_utf8(s) {
+                    let vs = |x: &str| x.as_bytes().to_vec();
+                    if win {
+                        let p = Utf8WindowsPath::new(st);
+                        chk!("Utf8Path::iter", p.iter().map(vs));
+                        chk!("Utf8Components", p.components().map(|c| c.as_str().as_bytes().to_vec()));
+                    } else {
+                        let p = Utf8UnixPath::new(st);
+                        chk!("Utf8Path::iter", p.iter().map(vs));
+                        chk!("Utf8Components", p.components().map(|c| c.as_str().as_bytes().to_vec()));
+                    }
+                    let up = if win { Utf8TypedPath::windows(st) } else { Utf8TypedPath::unix(st) };
+                    chk!("Utf8TypedPath::components", up.components().map(|c| c.as_str().as_bytes().to_vec()));
+                    chk!("Utf8TypedPath::iter", up.iter().map(vs));
+                    let upb = up.to_path_buf();
+                    chk!("Utf8TypedPathBuf::components", upb.components().map(|c| c.as_str().as_bytes().to_vec()));
+                    chk!("Utf8TypedPathBuf::iter", upb.iter().map(vs));
+                }
+                if let Some((name, d)) = bad.first() {
+                    ctx.fail("wrapper-iterators-interleave", None, format!("mix {} {} {}", e, hex(s), mask_str(&m)), format!("{}: {}", name, d));
+                    break;
+                }
+            }
             if let Ok(st) = std::str::from_utf8(s) {
                 let (u_f, mut u_b): (Vec<Vec<u8>>, Vec<Vec<u8>>) = if win {
                     (Utf8WindowsPath::new(st).components().map(|c| c.as_str().as_bytes().to_vec()).collect(), Utf8WindowsPath::new(st).components().rev().map(|c| c.as_str().as_bytes().to_vec()).collect())
@@ -514,6 +595,93 @@ pub fn c05(ctx: &mut Ctx, tier: &str, seed: u64) {
                 };
                 if ueq != eq || uord != ord || uh != ha {
                     ctx.fail("utf8-agrees-with-path", None, rp.clone(), format!("eq {} cmp {:?}", ueq, uord));
+                }
+            }
+            // every mixed-type impl the crate offers (impl_cmp! / impl_cmp_bytes!, byte and UTF-8 copies),
+            // in both operand orders
+            {
+                let mut bad: Option<&'static str> = None;
+                macro_rules! mixed {
+                    ($name:expr, $l:expr, $r:expr) => {{
+                        let l = $l;
+                        let r = $r;
+                        if (l == r) != eq || (r == l) != eq || l.partial_cmp(&r) != Some(ord) || r.partial_cmp(&l) != Some(ord.reverse()) {
+                            bad.get_or_insert($name);
+                        }
+                    }};
+                }
+                macro_rules! mixed_all {
+                    ($P:ident, $B:ident, $pa:expr, $pb:expr, $ra:expr, $rb:expr, $own:ty, $raw:ty) => {{
+                        let (pa, pb): (&$P, &$P) = ($pa, $pb);
+                        let (xa, xb): ($B, $B) = (pa.to_path_buf(), pb.to_path_buf());
+                        let (ca, cb): (Cow<$P>, Cow<$P>) = (Cow::Borrowed(pa), Cow::Owned(xb.clone()));
+                        let (ra, rb): (&$raw, &$raw) = ($ra, $rb);
+                        let (oa, ob): ($own, $own) = (ra.to_owned(), rb.to_owned());
+                        let (wa, wb): (Cow<$raw>, Cow<$raw>) = (Cow::Borrowed(ra), Cow::Owned(ob.clone()));
+                        mixed!("PathBuf~Path", xa.clone(), &*pb);
+                        mixed!("PathBuf~&Path", xa.clone(), pb);
+                        mixed!("Cow~Path", ca.clone(), &*pb);
+                        mixed!("Cow~&Path", ca.clone(), pb);
+                        mixed!("Cow~PathBuf", ca.clone(), xb.clone());
+                        mixed!("PathBuf~Cow(owned)", xa.clone(), cb.clone());
+                        if (*pa == *pb) != eq || pa.partial_cmp(pb) != Some(ord) || (xa == xb) != eq || xa.partial_cmp(&xb) != Some(ord) {
+                            bad.get_or_insert("same-type");
+                        }
+                        // against raw bytes / strings: the raw side is parsed as a path
+                        if (xa == *rb) != eq || (*rb == xa) != eq || xa.partial_cmp(rb) != Some(ord) || rb.partial_cmp(&xa) != Some(ord.reverse()) {
+                            bad.get_or_insert("PathBuf~raw");
+                        }
+                        if (xa == rb) != eq || (rb == xa) != eq || xa.partial_cmp(&rb) != Some(ord) || rb.partial_cmp(&xa) != Some(ord.reverse()) {
+                            bad.get_or_insert("PathBuf~&raw");
+                        }
+                        if (xa == wb) != eq || (wb == xa) != eq || xa.partial_cmp(&wb) != Some(ord) || wb.partial_cmp(&xa) != Some(ord.reverse()) {
+                            bad.get_or_insert("PathBuf~Cow<raw>");
+                        }
+                        if (xa == ob) != eq || (ob == xa) != eq || xa.partial_cmp(&ob) != Some(ord) || ob.partial_cmp(&xa) != Some(ord.reverse()) {
+                            bad.get_or_insert("PathBuf~owned-raw");
+                        }
+                        if (*pa == *rb) != eq || (*rb == *pa) != eq || pa.partial_cmp(rb) != Some(ord) || rb.partial_cmp(pa) != Some(ord.reverse()) {
+                            bad.get_or_insert("Path~raw");
+                        }
+                        if (*pa == rb) != eq || (rb == *pa) != eq || (*pa).partial_cmp(&rb) != Some(ord) || rb.partial_cmp(&*pa) != Some(ord.reverse()) {
+                            bad.get_or_insert("Path~&raw");
+                        }
+                        if (*pa == wb) != eq || (wb == *pa) != eq || pa.partial_cmp(&wb) != Some(ord) || wb.partial_cmp(pa) != Some(ord.reverse()) {
+                            bad.get_or_insert("Path~Cow<raw>");
+                        }
+                        if (*pa == ob) != eq || (ob == *pa) != eq || pa.partial_cmp(&ob) != Some(ord) || ob.partial_cmp(pa) != Some(ord.reverse()) {
+                            bad.get_or_insert("Path~owned-raw");
+                        }
+                        if (pa == *rb) != eq || (*rb == pa) != eq || pa.partial_cmp(rb) != Some(ord) || rb.partial_cmp(&pa) != Some(ord.reverse()) {
+                            bad.get_or_insert("&Path~raw");
+                        }
+                        if (pa == wb) != eq || (wb == pa) != eq || pa.partial_cmp(&wb) != Some(ord) || wb.partial_cmp(&pa) != Some(ord.reverse()) {
+                            bad.get_or_insert("&Path~Cow<raw>");
+                        }
+                        if (pa == ob) != eq || (ob == pa) != eq || pa.partial_cmp(&ob) != Some(ord) || ob.partial_cmp(&pa) != Some(ord.reverse()) {
+                            bad.get_or_insert("&Path~owned-raw");
+                        }
+                        let _ = (wa, oa);
+                    }};
+                }
+                if win {
+                    mixed_all!(WindowsPath, WindowsPathBuf, WindowsPath::new(a), WindowsPath::new(b), a.as_slice(), b.as_slice(), Vec<u8>, [u8]);
+                } else {
+                    mixed_all!(UnixPath, UnixPathBuf, UnixPath::new(a), UnixPath::new(b), a.as_slice(), b.as_slice(), Vec<u8>, [u8]);
+                }
+                if let Some(which) = bad {
+                    ctx.fail("mixed-type-impls-agree", None, rp.clone(), format!("byte types, {}", which));
+                }
+                if let (Ok(sa), Ok(sb)) = (std::str::from_utf8(a), std::str::from_utf8(b)) {
+                    bad = None;
+                    if win {
+                        mixed_all!(Utf8WindowsPath, Utf8WindowsPathBuf, Utf8WindowsPath::new(sa), Utf8WindowsPath::new(sb), sa, sb, String, str);
+                    } else {
+                        mixed_all!(Utf8UnixPath, Utf8UnixPathBuf, Utf8UnixPath::new(sa), Utf8UnixPath::new(sb), sa, sb, String, str);
+                    }
+                    if let Some(which) = bad {
+                        ctx.fail("mixed-type-impls-agree", None, rp.clone(), format!("UTF-8 types, {}", which));
+                    }
                 }
             }
             // collections: insert a, look up b
